@@ -196,6 +196,10 @@ def compare_world(rec, mjm, cw, cm, xpos, xmat, world, multiccd=True, nativeccd=
           # MJWarp's box-box primitive: the true-depth contact is present, plus extra contacts deeper than the overlap along the normal
           rec.violation(f"box-box primitive emits contacts deeper ({dw:.5f}) than the overlap along the contact normal ({dref:.5f}) {info}", sig="boxbox-prim:extra-deep", dref=dref, **info)
           continue
+        if tkey == ("box", "box") and not nativeccd and dw < dref - 4e-3 and abs(dm - dref) <= 4e-3:
+          # same primitive, second symptom: every contact of the pair is deeper than the overlap along the normal (no true-depth contact at all)
+          rec.violation(f"box-box primitive reports depth {dw:.5f} for all contacts where the overlap along the normal is {dref:.5f} (MuJoCo {dm:.5f}) {info}", sig="boxbox-prim:all-too-deep", dref=dref, **info)
+          continue
         rec.violation(f"{cls} distance {dw:.5f} differs from MuJoCo {dm:.5f} and from the geometric reference {dref:.5f} {info}", sig=f"geom:{cls}:dist:{tkey[0]}-{tkey[1]}", dref=dref, **info)
         continue
       if cls == "ccd":
